@@ -48,7 +48,7 @@ func (rn *runner) runMatchCase(c *Case) {
 	var hs *mux.Hosts
 	var pv, hv, hv2 mux.Matcher
 	var alt Op
-	var cur *Op
+	var curPV, curHV *Op // the declaration each matcher was built from (one per kind: a case may declare both)
 	do := func(op *Op) {
 		rn.stats.ops++
 		switch op.Op {
@@ -72,11 +72,11 @@ func (rn *runner) runMatchCase(c *Case) {
 			rn.emit(obj("ev", js("hmatch"), "host", js(op.Host), "wit", js(op.Pat), "wps", jmap(op.Params), "ok", jbool(ok), "params", jmap(ctxParams(ctx)), "res", js(res)))
 			ctx.Destroy()
 		case "pathver":
-			cur = op
+			curPV = op
 			res, _ := guard(func() { pv = mux.NewPathVersion(op.Key, append([]string{}, op.Versions...)...) })
 			rn.emit(obj("ev", js("pathver"), "param", js(op.Key), "versions", jarr(op.Versions), "res", js(res)))
 		case "headerver":
-			cur = op
+			curHV = op
 			var errlog func(error)
 			if op.Val == "" { // the default key gets an explicit log function, a custom key the default (nil) one
 				errlog = func(error) {}
@@ -103,12 +103,12 @@ func (rn *runner) runMatchCase(c *Case) {
 				ctx.Destroy()
 			}
 			if op.Op == "pv" {
-				one(pv, cur)
+				one(pv, curPV)
 			} else {
-				one(hv, cur)
+				one(hv, curHV)
 				if hv2 != nil {
 					one(hv2, &alt)
-					one(hv, cur)
+					one(hv, curHV)
 				}
 			}
 		default:
